@@ -228,6 +228,7 @@ static std::string run_cases(size_t n, const std::function<char(size_t)>& fn, st
     int st = 0; waitpid(pid, &st, 0);
     if (res.size() < n) {
       std::string err = slurp(errfile);
+      if (getenv("VH_VERBOSE")) fprintf(stderr, "---- child died at case %zu:\n%s\n", res.size(), err.c_str());
       char code = 'S';
       if (WIFSIGNALED(st) && WTERMSIG(st) == SIGALRM) code = 'T';
       else if (err.find("AddressSanitizer") != std::string::npos) code = 'A';
